@@ -170,7 +170,7 @@ pub fn status_body<N: Nd>(n: &mut N) {
     vcover!(has_move && b.halfmove_clock() == 99, "clock 99 with a move");
 }
 
-crate::proofs! {
+crate::bproofs! {
     #[kani::unwind(9)]
     #[kani::stub(cozy_chess::Board::is_legal, crate::glue::stub_is_legal)]
     #[kani::stub(cozy_chess::Board::play_unchecked, crate::glue::stub_play_unchecked)]
